@@ -22,7 +22,8 @@ import c04deltas as CD
 
 sys.path.insert(0, os.path.join(vlib.VERIF, "tools", "translate"))
 
-THEOREMS = ["C04_doc_literals_lex", "C04_errors_or_sentence", "C04_check_all_sound", "C04_check_discriminates", "C04_complete_partial"]
+THEOREMS = ["C04_doc_literals_lex", "C04_errors_or_sentence", "C04_check_all_sound", "C04_check_discriminates", "C04_complete_partial",
+            "C04_accessors_reach", "C04_accessors_cover_refuted"]
 TRANSLATORS = ["t_tokens", "t_lextables", "t_grammar", "t_ast", "t_docgrammar"]
 TRUSTED = [
     "Coq 8.16.1 kernel incl. vm_compute for the reflective obligations over the generated grammar program / documented grammar / accessor table",
@@ -424,6 +425,37 @@ def run(ctx):
             found = True
             ctx.violation("C04 typed accessors: %s in %r" % (what, t),
                           {"property": "C04", "kind": "unreachable", "parent": pk, "child": ck, "input": t, "detail": what, "seed": ctx.seed})
+    # ---- accessor model and child-frame table vs the real trees / real accessors (ties of C04_accessors_reach)
+    acc_ties = 0
+    acc_compared = 0
+    try:
+        import treeio
+        aexe = vlib.build_model("astacc")
+        sk_index = {k: i for i, k in enumerate(gr.d["tok"]["sks"])}
+        sk_name = {i: k for k, i in sk_index.items()}
+        lines, keep = [], []
+        for t, tr, w in zip(acc_texts, trees, walks):
+            if "tree" in tr and "nodes" in w:
+                lines.append(treeio.tree_line(tr["tree"], t.encode(), sk_index))
+                keep.append((t, tr, w))
+        mo = L.run_model(aexe, "check", lines)
+        for (t, tr, w), line in zip(keep, mo):
+            acc_compared += 1
+            nonconf, unre = (line.split("|") + [""])[:2]
+            nonconf = [sk_name[int(x)] for x in nonconf.split()]
+            model_unre = sorted({tuple(sk_name[int(y)] for y in x.split(":")) for x in unre.split()})
+            real_unre = sorted({(pk, ck) for pk, ck, what in accessor_findings(tr["tree"], w["nodes"]) if "returned by no" in what})
+            if nonconf:
+                acc_ties += 1
+                if acc_ties == 1:
+                    fails.append({"kind": "correspondence", "file": "a real parse tree does not conform to the child-frame table computed from the grammar "
+                                  "program (node kinds %s) for %r" % (nonconf, t)})
+            elif model_unre != real_unre:
+                acc_ties += 1
+                if acc_ties == 1:
+                    fails.append({"kind": "correspondence", "file": "accessor model (GenAst.v) vs real accessors (astwalk) differ on %r: model %s, real %s" % (t, model_unre, real_unre)})
+    except vlib.BuildError as ex:
+        fails.append({"kind": "model-build", "file": "extraction unit astacc", "error": str(ex)[-800:]})
     # ---- real-world files
     cfiles = corpus_files()
     ctexts = [open(f, encoding="utf-8", errors="replace").read() for f in cfiles]
@@ -433,6 +465,29 @@ def run(ctx):
         found = True
         ctx.violation("C04 real-world file %s does not parse clean: %s" % (os.path.basename(f), errs),
                       {"property": "C04", "kind": "corpus", "file": f, "errors": errs, "seed": ctx.seed})
+    # ---- the corpus trees conform to the child-frame table too (they contain what no generated sentence has: huge lists, the <Type> suffix)
+    corpus_nonconf = 0
+    try:
+        import treeio
+        aexe = vlib.build_model("astacc")
+        sk_index = {k: i for i, k in enumerate(gr.d["tok"]["sks"])}
+        sk_name = {i: k for k, i in sk_index.items()}
+        ctrees = L.run_json(os.path.join(bindir, "parsedump"), ctexts, timeout=1800) if ctexts else []
+        clines = [treeio.tree_line(tr["tree"], t.encode(), sk_index) for t, tr in zip(ctexts, ctrees) if "tree" in tr]
+        for f, line in zip(cfiles, L.run_model(aexe, "check", clines)):
+            nonconf = [sk_name[int(x)] for x in line.split("|")[0].split()]
+            unre = {tuple(sk_name[int(y)] for y in x.split(":")) for x in (line.split("|") + [""])[1].split()}
+            if nonconf:
+                corpus_nonconf += 1
+                if corpus_nonconf == 1:
+                    fails.append({"kind": "correspondence", "file": "corpus tree %s does not conform to the child-frame table (node kinds %s)" % (os.path.basename(f), sorted(set(nonconf)))})
+            for pk, ck in sorted(unre):
+                if pk != "List":     # List.<Type>: only through the undocumented suffix (accepts:list-element-type-suffix)
+                    key = "unreachable:%s.%s" % (pk, ck)
+                    if key in known:
+                        ctx.known(key, "key=%s child %s of %s is returned by no typed accessor [corpus file %s]" % (key, ck, pk, os.path.basename(f)))
+    except vlib.BuildError as ex:
+        fails.append({"kind": "model-build", "file": "extraction unit astacc", "error": str(ex)[-800:]})
     # ---- parse model vs real parser (error presence) on a slice
     ties = 0
     compared = 0
@@ -475,6 +530,9 @@ def run(ctx):
         "accessor_sentences": len(acc_texts),
         "corpus_files": len(cfiles),
         "corpus_files_with_errors": len(corpus_bad),
+        "corpus_trees_not_conforming_to_child_frames": corpus_nonconf,
+        "accessor_model_trees_compared": acc_compared,
+        "accessor_model_disagreements": acc_ties,
         "model_vs_parser_compared": compared,
         "correspondence_disagreements": ties,
         "traces_validated_against_impl": compared - ties,
